@@ -46,9 +46,12 @@ type vfCaseC16 struct {
 	Opts    vfOpts
 }
 
-func vfGenLsName(t *rapid.T, i int, kind string) []byte {
+func vfGenLsName(t *rapid.T, i int, kind string, allLong bool) []byte {
 	k := rapid.IntRange(0, 11).Draw(t, "namekind")
 	base := fmt.Sprintf("%04d", i)
+	if allLong {
+		k = 8 // every name as long as a name can be: a batch of them is far larger than one data payload (seed C16-e)
+	}
 	switch {
 	case k <= 4:
 		return []byte("f" + base)
@@ -88,8 +91,9 @@ func vfGenC16(t *rapid.T) vfCaseC16 {
 			n = rapid.IntRange(0, 20).Draw(t, "ndrawn")
 		}
 	}
+	allLong := rapid.IntRange(0, 4).Draw(t, "alllong") == 0
 	for i := 0; i < n; i++ {
-		e := vfLsEntry{Name: vfGenLsName(t, i, c.Kind), Size: int64(rapid.IntRange(0, 40).Draw(t, "size")),
+		e := vfLsEntry{Name: vfGenLsName(t, i, c.Kind, allLong), Size: int64(rapid.IntRange(0, 40).Draw(t, "size")),
 			Perm: uint32(rapid.SampledFrom([]int{0o644, 0o600, 0o755, 0o4711, 0o1777, 0}).Draw(t, "perm")), Mtime: int64(rapid.SampledFrom([]int{0, 1, 1000000000, 1700000000, 2000000000}).Draw(t, "mtime"))}
 		if c.Kind == "rs" {
 			e.Size = int64(vfGenU64(t, "bigsize") >> 1)
